@@ -48,6 +48,7 @@ func init() {
 			{Name: "tenant wrapper returns a copy without the expiry", File: "pkg/auth/multi_tenant_verifier.go", Old: "\tt.TenantID = tenantID\n\treturn t, nil\n", New: "\treturn &Token{Endpoints: t.Endpoints, TenantID: tenantID}, nil\n", Rule: "C16.R4"},
 			{Name: "session removed from the set only when shedding", File: "server/upstream/server.go", Old: "\ts.addSession(sess)\n\tdefer s.removeSession(sess)\n", New: "\ts.addSession(sess)\n", Rule: "C16.R1"},
 			{Name: "membership guard dropped (D1 again)", File: "server/upstream/manager.go", Old: "\tif !slices.Contains(lb.upstreams, u) {\n", New: "\tif !slices.Contains(lb.upstreams, u) && len(lb.upstreams) == 0 {\n", Rule: "C16.R6"},
+			{Name: "proxy removes the upstream on any dial error", File: "server/proxy/httpproxy.go", Old: "\tif err != nil && errors.Is(err, upstream.ErrGone) {", New: "\tif err != nil {", Rule: "C16.R7"},
 			{Name: "benign: error classification as a switch", Benign: true, File: "server/upstream/server.go", Old: "\t\t\tif errors.Is(err, net.ErrClosed) {\n\t\t\t\treturn\n\t\t\t}\n\t\t\tif errors.Is(err, context.Canceled) {\n\t\t\t\t// Server shutdown.\n\t\t\t\treturn\n\t\t\t}\n", New: "\t\t\tswitch {\n\t\t\tcase errors.Is(err, net.ErrClosed):\n\t\t\t\treturn\n\t\t\tcase errors.Is(err, context.Canceled):\n\t\t\t\t// Server shutdown.\n\t\t\t\treturn\n\t\t\t}\n"},
 		},
 	})
@@ -379,6 +380,7 @@ func runC16(c *Ctx) {
 		c16Loop(c, fn)
 		c16Ctx(c, fn)
 	}
+	c16Gone(c)
 	c16Shutdown(c)
 	c16Expiry(c)
 	c16Sessions(c)
@@ -838,4 +840,69 @@ func flowsToDefer(v ssa.Value, d int) bool {
 		}
 	}
 	return false
+}
+
+// c16Gone: outside the handler's deferred release, a registered upstream is
+// removed only because it announced go-away: RemoveConn(u) under
+// errors.Is(err, ErrGone) for the error of u.Dial(), and ErrGone is produced
+// only from yamux.ErrRemoteGoAway.
+func c16Gone(c *Ctx) {
+	p := c.P
+	c.floor("C16.R7", 3)
+	for _, fn := range p.ModFuncs {
+		if isTestFile(p.Fset, fn.Pos()) {
+			continue
+		}
+		fs := (*Facts)(nil)
+		allInstrs(fn, func(i ssa.Instruction) {
+			cl, ok := i.(*ssa.Call)
+			if !ok || !cl.Call.IsInvoke() || cl.Call.Method.Name() != "RemoveConn" || !strings.Contains(cl.Call.Method.FullName(), "server/upstream.Manager") {
+				return
+			}
+			if fs == nil {
+				fs = computeFacts(fn)
+			}
+			u := cl.Call.Args[0]
+			facts := fs.At(cl.Block())
+			gone := anyFact(facts, func(f Fact) bool {
+				ec, ok := f.V.(*ssa.Call)
+				if !ok || !f.T || commonName(&ec.Call) != "errors.Is" {
+					return false
+				}
+				if !strings.HasSuffix(path(ec.Call.Args[1]), "G:ErrGone") {
+					return false
+				}
+				// the error of u.Dial()
+				ex, ok := ec.Call.Args[0].(*ssa.Extract)
+				if !ok || ex.Index != 1 {
+					return false
+				}
+				dc, ok := ex.Tuple.(*ssa.Call)
+				return ok && dc.Call.IsInvoke() && dc.Call.Method.Name() == "Dial" && sameValue(dc.Call.Value, u)
+			})
+			c.check(gone, "C16.R7", fnName(fn)+"/removes-only-gone-upstream", cl.Pos(), "an upstream is dropped from routing ahead of its disconnect only when its Dial reported ErrGone",
+				"a registered upstream is removed from routing although its connection is open and it did not announce go-away (any dial error, or an unrelated upstream): it stays connected but receives no traffic; facts "+factStrings(facts))
+		})
+	}
+	if fn := p.Func(upPkg, "ConnUpstream.Dial"); fn != nil {
+		fsd := computeFacts(fn)
+		n := 0
+		allInstrs(fn, func(i ssa.Instruction) {
+			// where does ErrGone flow into the returned error?
+			u, ok := i.(*ssa.UnOp)
+			if !ok || u.Op != token.MUL || !strings.HasSuffix(path(u), "G:ErrGone") {
+				return
+			}
+			n++
+			facts := fsd.At(u.Block())
+			goAway := anyFact(facts, func(f Fact) bool {
+				ec, ok := f.V.(*ssa.Call)
+				return ok && f.T && commonName(&ec.Call) == "errors.Is" && strings.HasSuffix(path(ec.Call.Args[1]), "G:ErrRemoteGoAway")
+			})
+			c.check(goAway, "C16.R7", fnName(fn)+"/gone-means-go-away", u.Pos(), "ErrGone is reported only for yamux.ErrRemoteGoAway", "ErrGone is reported for errors other than the peer's go-away: healthy upstreams get removed from routing")
+		})
+		if n == 0 {
+			c.fail("C16.R7", fnName(fn)+"/gone-means-go-away", fn.Pos(), "ConnUpstream.Dial never reports ErrGone: upstreams that stopped accepting stay in rotation")
+		}
+	}
 }
